@@ -9,6 +9,11 @@ CLAIMED = {
              note="Trusted: the reference in checks/C12.py, Hypothesis, the raw tree walk in vlib/model.py. Bounded to n<=14 tokens and <=5 detached nodes.",
              ref="DESIGN.md section 2, C12"),
 }
+CLAIMED["C20"] = dict(
+    tech="exhaustive enumeration of all label strings up to length 6/7 over a 9-character alphabet (differential vs. regex reference parser, round trip, component deletion) + Hypothesis labels built from parts and get_label option subsets",
+    text="Every string up to length 6 (quick; 7 thorough) over {A b 1 2 - = # ' *} is parsed with both separators and compared field by field with an independent regex parser of the documented label grammar; format(parse(s)) must give back s up to the two documented default literals; each of the five components is emptied in turn and must vanish alone. Longer labels are built from parts so the expected parse is known by construction; get_label is compared with category + requested decorations for every option subset. Exhaustive inside the stated bound, sampled beyond it.",
+    note="Trusted: the regex reference parser/formatter in checks/C20.py (derived from parse_label's docstring). A lone '*' may or may not count as a trace; emptying the function under always_gf is not checked; numbering without marking accepts both label3 and label*3.",
+    ref="DESIGN.md section 2, C20")
 PENDING_REASON = "check not built yet in this round (planned, see DESIGN.md section 6); not claimed until it is quiet on the unchanged tree"
 
 
